@@ -129,6 +129,102 @@ def ob_wallpoints(env):
     env.claim("cached_fine_contour_invalidated", c._fine_contour is None and c._distance is None)
 
 
+def _mk_find_intersection(which):
+    """real _find_intersection (one wall end at a time): the reported index designates the first contour interval, scanning from the far end
+    towards this wall, that crosses the wall; the wall point is the crossing of a fine-contour interval next to the coarse crossing, refined
+    along that interval's direction.  wallIntersection is a crossing oracle chosen by the explorer (every crossing pattern)."""
+    def body(env):
+        n, m = 4, 7
+        lower = which == "lower"
+        pts = [Point2D(float(k), 0.0) for k in range(n)]
+        crossing = [env.bool("coarse_interval_%d_crosses" % k) for k in range(n - 1)]   # coarse interval k = (pts[k], pts[k+1]) crosses the wall?
+        ifine_s = env.int("searchsorted_result", lo=2, hi=4)
+        ifine = int(ifine_s)                                            # (forks over 2..4: it is used as an array index)
+        fine_cross = env.int("crossing_fine_interval", lo=0, hi=m - 1)  # fine interval (c-1, c) that crosses: c in 1..m-1; 0 = none
+        near = ((fine_cross == ifine - 1) | (fine_cross == ifine) | (fine_cross == ifine + 1)) if env.mode == "sym" else (fine_cross in (ifine - 1, ifine, ifine + 1))
+        env.tag("%s i_fine=%d" % (which, ifine))
+        # fine points on a parabola: the direction of interval (c-1, c) is (1, 2c-1), so the tangent handed to refinePoint identifies the interval
+        fine_pos = numpy.array([[100.0 + k, 7.0 + k * k] for k in range(m)])
+        refined = []
+
+        class Fine:
+            positions = fine_pos
+            distance = numpy.arange(m, dtype=float)
+
+            def getDistance(self, p):
+                return ("distance_of", p)
+
+        class Contour(list):
+            extended = 0
+
+            def get_distance(self, psi=None):
+                return [float(k) for k in range(len(self))]
+
+            def temporaryExtend(self, **kw):
+                raise core.PathAbort("extension path (contour does not reach the wall) is outside this obligation")
+
+            def get_fine_contour(self, psi=None):
+                return Fine()
+
+            def refinePoint(self, p, tangent, psi=None):
+                refined.append((p, tangent))
+                return ("refined", p)
+
+        c = Contour(pts)
+
+        def wall_intersection(a, b):
+            ia = [k for k, q in enumerate(pts) if q is a]
+            ib = [k for k, q in enumerate(pts) if q is b]
+            if ia and ib:
+                k = min(ia[0], ib[0])
+                if abs(ia[0] - ib[0]) != 1:
+                    raise core.HarnessError("non-adjacent coarse points")
+                # direction convention: towards the wall (lower: from the higher index to the lower one; upper: increasing index)
+                ok_dir = (ia[0] == ib[0] + 1) if lower else (ib[0] == ia[0] + 1)
+                env.claim("coarse_segments_tested_pointing_towards_this_wall", ok_dir)
+                return ("coarse_crossing", k) if crossing[k] else None
+            # fine interval, identified by R = 100 + index
+            ka, kb = int(round(a.R - 100.0)), int(round(b.R - 100.0))
+            if kb != ka + 1:
+                raise core.HarnessError("fine interval not adjacent/ordered: %s %s" % (ka, kb))
+            return ("fine_crossing", kb) if fine_cross == kb else None
+
+        eq = types.SimpleNamespace(wallIntersection=wall_intersection, psi=None)
+
+        class NP:
+            def __getattr__(self, k):
+                return getattr(numpy, k)
+
+            def searchsorted(self, arr, d):
+                return ifine
+
+        try:
+            with patched((mesh_mod, "numpy", NP())):
+                res = mesh_mod._find_intersection(0, c, equilibrium=eq, lower_wall=lower, upper_wall=not lower, max_extend=3, psi="PSI")
+        except ValueError:
+            env.tag("refused")
+            env.claim("refused_only_if_no_neighbouring_fine_interval_crosses", ~near if env.mode == "sym" else not near)
+            return
+        env.witness("found")
+        _, li, lp, ui, up = res
+        order = range(n - 2, -1, -1) if lower else range(0, n - 1)      # scan order of coarse intervals
+        first = next(k for k in order if crossing[k])                   # (paths without any crossing abort in temporaryExtend)
+        if lower:
+            env.claim("lower_index_is_the_first_crossing_interval_seen_from_the_far_end", li == first)
+            env.claim("upper_defaults_untouched", ui == -2 and up is None)
+            got = lp
+        else:
+            env.claim("upper_index_is_the_first_crossing_interval_seen_from_the_far_end", ui == first)
+            env.claim("lower_defaults_untouched", li == 0 and lp is None)
+            got = up
+        env.claim("a_neighbouring_fine_interval_crosses", near)
+        env.claim("wall_point_is_the_refined_fine_crossing", isinstance(got, tuple) and got[0] == "refined" and got[1][0] == "fine_crossing"
+                  and (fine_cross == got[1][1]))
+        env.claim("refined_once_along_the_crossing_interval", len(refined) == 1 and float(refined[0][1].R) == 1.0
+                  and (fine_cross * 2 - 1 == int(round(float(refined[0][1].Z)))))
+    return body
+
+
 def _mk_penalty(which):
     return lambda env: ob_penalty(env, which)
 
@@ -245,6 +341,13 @@ OBLIGATIONS.append(Ob("wall_point_insertion_bookkeeping", ob_wallpoints, tier="q
                       desc="contour[startInd] / contour[endInd] are the wall points; original order kept; at most one original replaced per end; caches invalidated",
                       stubs=["_find_intersection -> admissible indices and wall points", "calc_distance -> arbitrary reals"], bounds="5-point contour, all index combinations, 3 proximity branches per end",
                       max_paths=20000))
+for _w in ("lower", "upper"):
+    OBLIGATIONS.append(Ob("find_intersection_%s_wall" % _w, _mk_find_intersection(_w), tier="quick", family="_find_intersection",
+                          encodes=["hypnotoad.core.mesh:_find_intersection"],
+                          desc="index of the crossing contour interval and the refined wall point, for every pattern of crossing intervals, every neighbouring fine interval",
+                          stubs=["wallIntersection -> crossing oracle (symbolic booleans per interval)", "FineContour -> tagged positions", "searchsorted -> chosen index", "refinePoint -> tag"],
+                          bounds="4-point contour (8 crossing patterns), 7 fine points, searchsorted result 2..4, crossing fine interval anywhere; "
+                                 "contour extension (no crossing) and both walls at once not explored", max_paths=20000))
 for _w in ("upper", "lower", "both_outside", "general", "slanted"):
     OBLIGATIONS.append(Ob("penalty_mask_%s_wall_%s" % ("rectangular" if _w != "slanted" else "trapezoid", _w), _mk_penalty(_w), tier="quick" if _w not in ("general", "slanted") else "thorough", family="calcPenaltyMask",
                           encodes=["hypnotoad.core.mesh:MeshRegion.calcPenaltyMask", "hypnotoad.core.equilibrium:find_intersections"],
